@@ -86,6 +86,10 @@ pub enum COp {
     /// open a cursor over everything, read `first` entries, run the rest of this thread's program,
     /// then finish the walk: everything it returns must equal the snapshot at open time
     HeldScan { first: u8 },
+    /// a batch the store must refuse: a well-formed put of key `k` plus a value over the documented
+    /// maximum, handed in through WriteBatch + write (sizes are checked only after the write took
+    /// its sequence number and its place in the writers' queue).  Nothing of it may become visible.
+    RefusedBatch { k: u8 },
 }
 
 #[derive(Clone, Debug, Serialize, Deserialize)]
@@ -109,6 +113,7 @@ fn cop_strategy() -> impl Strategy<Value = COp> {
         5 => any::<u8>().prop_map(|k| COp::Get { k }),
         3 => (any::<u8>(), any::<u8>(), prop_oneof![3 => Just(0u8), 2 => Just(1u8), 1 => Just(2u8), 1 => Just(3u8)]).prop_map(|(lo, hi, mode)| COp::Scan { lo, hi, mode }),
         1 => (0u8..4).prop_map(|first| COp::HeldScan { first }),
+        1 => any::<u8>().prop_map(|k| COp::RefusedBatch { k }),
     ]
 }
 
@@ -280,6 +285,17 @@ pub fn run_case(ctx: &Ctx, c: &ThreadedCase) -> RunResult {
                             Ok(()) => events.push(Event { invoke: inv, response: resp, action: Action::Write(ws), thread: ti }),
                             Err(e) => errors.push(format!("batch failed: {e:?}")),
                         }
+                    }
+                    COp::RefusedBatch { k: key } => {
+                        let ki = key_of(&universe, *key);
+                        // a value nobody else writes: if any part of the refused batch became visible a
+                        // later read returns an id that no recorded write produced
+                        let id = sh.next_val.fetch_add(1, Ordering::SeqCst) as Val;
+                        let mut wb = WriteBatch::with_capacity(2);
+                        wb.put(&universe[ki], &value_for(id, 1));
+                        wb.put(b"refused/oversize", &vec![b'V'; sst::MAX_VALUE_LEN + 1]);
+                        // refused or not is C10's / the store's size contract, not judged here
+                        let _ = k.write(wb);
                     }
                     COp::Get { k: key } => {
                         let ki = key_of(&universe, *key);
@@ -951,7 +967,13 @@ impl Property for ThreadedFiles {
             o = run_ingest(ctx, c);
             // a stall or a client error is C20's / C06's verdict, not this part's
             if let Some(f) = &o.failure {
-                if f.signature != "threads:listed-sst-missing-or-unopenable" && !f.signature.starts_with("panic@") && f.signature != "threads:background-error" {
+                let file_gone = f.signature == "threads:background-error" && (f.message.contains("NotFound") || f.message.contains("No such file"));
+                if f.signature == "threads:background-error" && !file_gone {
+                    // a background thread failed for another reason (no space, too many open files ...)
+                    o.failure = None;
+                    o.inconclusive = true;
+                    o.label("background-error-other-than-a-missing-file");
+                } else if f.signature != "threads:listed-sst-missing-or-unopenable" && !f.signature.starts_with("panic@") && !file_gone {
                     o.failure = None;
                     o.label("other-verdict-left-to-its-own-check");
                 }
@@ -1309,6 +1331,237 @@ impl Property for Wakeups {
             }
             verif::STOP.store(false, Ordering::SeqCst);
         }
+        o
+    }
+}
+
+/////////////////////////////////// C20: writers behind a rejected write //////////////////////////////
+
+/// Client threads against one KeyValueStore: writers that put small values, and "rejecters" that
+/// submit batches the store must refuse (a value or key over the documented maximum, handed in
+/// through WriteBatch + write, which checks sizes only after the write took its place in the
+/// writers' queue).  A refused batch is an explicit error; every other client must still finish.
+/// A fixed amount of work per thread, no time limits in the clients; the verdict "parked for ever"
+/// is exact: every unfinished client is in an untimed futex wait, with unchanged context-switch
+/// counts over three snapshots, and no client call has completed in between.
+#[derive(Clone, Debug, Serialize, Deserialize)]
+pub struct RejectCase {
+    pub writers: u8,
+    pub rejecters: u8,
+    pub puts_per_writer: u16,
+    pub rejects_per_rejecter: u16,
+    /// true: oversize key, false: oversize value
+    pub big_key: bool,
+    pub batch_keys: u8,
+}
+
+pub struct RejectedWrites;
+
+fn in_untimed_futex_wait(syscall_line: &str) -> bool {
+    let toks: Vec<&str> = syscall_line.split_whitespace().collect();
+    if toks.len() < 5 {
+        return false;
+    }
+    let Ok(nr) = toks[0].parse::<i64>() else { return false };
+    if nr != libc::SYS_futex as i64 {
+        return false;
+    }
+    let hex = |s: &str| u64::from_str_radix(s.trim_start_matches("0x"), 16).ok();
+    let (Some(op), Some(timeout)) = (hex(toks[2]), hex(toks[4])) else { return false };
+    let cmd = op & 0x7f;
+    (cmd == libc::FUTEX_WAIT as u64 || cmd == libc::FUTEX_WAIT_BITSET as u64) && timeout == 0
+}
+
+fn ctx_switches(tid: i64) -> Option<(char, u64, u64)> {
+    let s = std::fs::read_to_string(format!("/proc/self/task/{tid}/status")).ok()?;
+    let (mut state, mut vol, mut invol) = (None, None, None);
+    for l in s.lines() {
+        if let Some(r) = l.strip_prefix("State:") {
+            state = r.trim().chars().next();
+        } else if let Some(r) = l.strip_prefix("voluntary_ctxt_switches:") {
+            vol = r.trim().parse().ok();
+        } else if let Some(r) = l.strip_prefix("nonvoluntary_ctxt_switches:") {
+            invol = r.trim().parse().ok();
+        }
+    }
+    Some((state?, vol?, invol?))
+}
+
+impl Property for RejectedWrites {
+    type Case = RejectCase;
+    fn name(&self) -> String {
+        "rejected-writes".into()
+    }
+    fn cases(&self, tier: Tier) -> u64 {
+        tier.pick(30, 800)
+    }
+    fn max_shrink_iters(&self) -> u32 {
+        10
+    }
+    fn record_current(&self) -> bool {
+        true
+    }
+    fn strategy(&self, _: &Ctx) -> BoxedStrategy<RejectCase> {
+        (1u8..5, 1u8..4, 50u16..400, 20u16..200, any::<bool>(), 1u8..4)
+            .prop_map(|(writers, rejecters, puts_per_writer, rejects_per_rejecter, big_key, batch_keys)| RejectCase { writers, rejecters, puts_per_writer, rejects_per_rejecter, big_key, batch_keys })
+            .boxed()
+    }
+    fn run(&self, ctx: &Ctx, c: &RejectCase) -> Outcome {
+        use std::sync::atomic::{AtomicI64, AtomicU64};
+        let mut o = Outcome::pass();
+        lsmtk::verif::set_step_mode(false);
+        lsmtk::verif::STOP.store(false, Ordering::SeqCst);
+        lsmtk::verif::set_yield_hook(None);
+        let root = ctx.fresh_dir("rejects");
+        // a memtable that never fills: no flush thread is needed, every thread of the case is a client
+        let (opts, _) = { use arrrg::CommandLine; lsmtk::LsmtkOptions::from_arguments_relaxed("x", &["--path", &root.to_string_lossy(), "--memtable-size-bytes", "1073741824"]) };
+        let kvs = match KeyValueStore::open(opts) {
+            Ok(k) => Arc::new(k),
+            Err(e) => {
+                o.inconclusive = true;
+                o.label(format!("harness:open:{}", vcore::truncate(&format!("{e:?}"), 60)));
+                return o;
+            }
+        };
+        let n = (c.writers + c.rejecters) as usize;
+        const NOT_STARTED: i64 = -1;
+        const DONE: i64 = -2;
+        let slots: Arc<Vec<AtomicI64>> = Arc::new((0..n).map(|_| AtomicI64::new(NOT_STARTED)).collect());
+        let progress = Arc::new(AtomicU64::new(0));
+        let errors: Arc<Mutex<Vec<String>>> = Arc::new(Mutex::new(vec![]));
+        let accepted_oversize = Arc::new(AtomicU64::new(0));
+        let mut hs = vec![];
+        for t in 0..n {
+            let (kvs, slots, progress, errors, accepted) = (Arc::clone(&kvs), Arc::clone(&slots), Arc::clone(&progress), Arc::clone(&errors), Arc::clone(&accepted_oversize));
+            let c = c.clone();
+            hs.push(std::thread::spawn(move || {
+                slots[t].store(unsafe { libc::syscall(libc::SYS_gettid) } as i64, Ordering::SeqCst);
+                if t < c.writers as usize {
+                    for i in 0..c.puts_per_writer {
+                        let mut wb = WriteBatch::with_capacity(c.batch_keys as usize);
+                        for j in 0..c.batch_keys {
+                            wb.put(format!("w{t}-{}-{j}", i % 8).as_bytes(), format!("v{i}").as_bytes());
+                        }
+                        if let Err(e) = kvs.write(wb) {
+                            errors.lock().unwrap().push(format!("a well-formed batch of writer {t} failed: {e:?}"));
+                            break;
+                        }
+                        progress.fetch_add(1, Ordering::SeqCst);
+                    }
+                } else {
+                    let big_key = vec![b'K'; sst::MAX_KEY_LEN + 1];
+                    let big_val = vec![b'V'; sst::MAX_VALUE_LEN + 1];
+                    for _ in 0..c.rejects_per_rejecter {
+                        let mut wb = WriteBatch::with_capacity(2);
+                        wb.put(b"fine", b"x");
+                        if c.big_key {
+                            wb.put(&big_key, b"x");
+                        } else {
+                            wb.put(b"big", &big_val);
+                        }
+                        if kvs.write(wb).is_ok() {
+                            accepted.fetch_add(1, Ordering::SeqCst);
+                        }
+                        progress.fetch_add(1, Ordering::SeqCst);
+                    }
+                }
+                slots[t].store(DONE, Ordering::SeqCst);
+            }));
+        }
+        // supervise
+        let snapshot = |slots: &Vec<AtomicI64>| -> Option<Vec<(usize, i64, u64, u64)>> {
+            let mut out = vec![];
+            for (i, s) in slots.iter().enumerate() {
+                let tid = s.load(Ordering::SeqCst);
+                if tid == DONE {
+                    continue;
+                }
+                if tid == NOT_STARTED {
+                    return None;
+                }
+                let sc = std::fs::read_to_string(format!("/proc/self/task/{tid}/syscall")).ok()?;
+                if !in_untimed_futex_wait(&sc) {
+                    return None;
+                }
+                let (state, vol, invol) = ctx_switches(tid)?;
+                if state != 'S' {
+                    return None;
+                }
+                out.push((i, tid, vol, invol));
+            }
+            if out.is_empty() { None } else { Some(out) }
+        };
+        let t0 = Instant::now();
+        let mut last = progress.load(Ordering::SeqCst);
+        let mut quiet_since = Instant::now();
+        let mut deadlock: Option<String> = None;
+        let mut timed_out = false;
+        loop {
+            if slots.iter().all(|s| s.load(Ordering::SeqCst) == DONE) {
+                break;
+            }
+            std::thread::sleep(Duration::from_millis(2));
+            let p = progress.load(Ordering::SeqCst);
+            if p != last {
+                last = p;
+                quiet_since = Instant::now();
+            } else if quiet_since.elapsed() > Duration::from_millis(300) {
+                if let Some(a) = snapshot(&slots) {
+                    std::thread::sleep(Duration::from_millis(100));
+                    if let Some(b) = snapshot(&slots) {
+                        std::thread::sleep(Duration::from_millis(100));
+                        if let Some(cc) = snapshot(&slots) {
+                            if a == b && b == cc && progress.load(Ordering::SeqCst) == last {
+                                let who: Vec<String> = a.iter().map(|(i, ..)| if *i < c.writers as usize { format!("writer {i}") } else { format!("rejecter {i}") }).collect();
+                                deadlock = Some(format!("{} are parked in untimed futex waits for ever (unchanged context-switch counts over three snapshots, no client call completed in between) after {last} client calls had returned; {} writers, {} clients submitting refused batches (oversize {})", who.join(", "), c.writers, c.rejecters, if c.big_key { "key" } else { "value" }));
+                                break;
+                            }
+                        }
+                    }
+                }
+                quiet_since = Instant::now();
+            }
+            if t0.elapsed() > Duration::from_secs(90) {
+                timed_out = true;
+                break;
+            }
+        }
+        o.nontrivial = true;
+        if let Some(d) = deadlock {
+            // the parked threads hold the store: leave them behind
+            for h in hs {
+                if h.is_finished() {
+                    let _ = h.join();
+                } else {
+                    std::mem::forget(h);
+                }
+            }
+            std::mem::forget(kvs);
+            o.fail("threads:clients-parked-for-ever", d);
+            return o;
+        }
+        if timed_out {
+            for h in hs {
+                std::mem::forget(h);
+            }
+            std::mem::forget(kvs);
+            o.inconclusive = true;
+            o.label("watchdog");
+            return o;
+        }
+        for h in hs {
+            if h.join().is_err() {
+                o.fail("threads:client-panicked", "a client thread panicked".to_string());
+            }
+        }
+        if let Some(e) = errors.lock().unwrap().first() {
+            o.fail("threads:op-error", vcore::truncate(e, 300));
+        }
+        if accepted_oversize.load(Ordering::SeqCst) > 0 {
+            o.label("oversize-batch-accepted(not-judged-here)");
+        }
+        drop(kvs);
+        let _ = std::fs::remove_dir_all(&root);
         o
     }
 }
